@@ -23,7 +23,7 @@ CALL2PRIM = {"Int8": "i8", "Int16": "i16", "Int32": "i32", "Int64": "i64", "UInt
              "Double": "f64", "Boolean": "bool", "Position": "pos"}
 CTYPE_W = {"int8_t": 1, "int16_t": 2, "int32_t": 4, "int64_t": 8, "uint8_t": 1, "uint16_t": 2, "uint32_t": 4,
            "uint64_t": 8, "char": 1, "size_t": 8, "float": 4, "double": 8, "bool": 1}
-FLAGS = ["arrayRefiled", "checkAfterRead", "versionOr", "indexChecked", "lengthChecked", "valueStrFresh", "valueTypeLate", "dictLoadAdds"]
+FLAGS = ["arraySizeChecked", "arrayRefiled", "checkAfterRead", "versionOr", "indexChecked", "lengthChecked", "valueStrFresh", "valueTypeLate", "dictLoadAdds"]
 
 
 # --------------------------------------------------------------------------------------------
@@ -247,7 +247,17 @@ def extract(repo=None):
             raise Unread("ScriptArrayHolder::Archive not recognised")
         return bool(re.search(r"arc\.AfterLoad\s*\(", b)) and bool(re.search(r"arrayValue\.resize\s*\(", b))
 
+    def array_size_checked():
+        # ScriptConstArrayHolder::Archive, load side: is the archived element count bounded by the stream before the
+        # elements are allocated?
+        svsrc = _read(repo, "src", "Script", "ScriptVariable.cpp")
+        b = func_body(svsrc, r"void\s+ScriptConstArrayHolder::Archive\s*\(\s*Archiver\s*&\s*arc\s*\)")
+        if b is None or not re.search(r"arc\.ArchiveUInt32\s*\(\s*sz32\s*\)", b):
+            raise Unread("ScriptConstArrayHolder::Archive not recognised")
+        return bool(re.search(r"sz32\s*>\s*arc\.GetRemainingSize\(\)", b)) and "throw" in b
+
     flags = {
+        "arraySizeChecked": item("arraySizeChecked", array_size_checked, True),
         "arrayRefiled": item("arrayRefiled", array_refiled, True),
         "checkAfterRead": item("checkAfterRead", check_after_read, True),
         "versionOr": item("versionOr", version_or, True),
@@ -291,6 +301,8 @@ def gen_text(d):
         "def varTypeNames : List String := [%s]\n"
         "/-- `StringDictionary::ArchiveString`, load side: the text read becomes `Add(text)` (interned), not `Get(text)` -/\n"
         "def dictLoadAdds : Bool := %s\n"
+        "/-- `ScriptConstArrayHolder::Archive` bounds the archived element count by the stream before allocating -/\n"
+        "def arraySizeChecked : Bool := %s\n"
         "/-- `ScriptArrayHolder::Archive` files the entries of a loaded hash array again when the archive is closed -/\n"
         "def arrayRefiled : Bool := %s\n"
         "/-- read branch of `ArchiveObject`: the chain `if ((endpos - objstart) OP size) throw E` behind the body -/\n"
@@ -302,7 +314,7 @@ def gen_text(d):
             ", ".join('("%s", "%s", %d)' % t for t in d["primTable"]),
             b(d["flags"]["checkAfterRead"]), b(d["flags"]["versionOr"]), b(d["flags"]["indexChecked"]),
             b(d["flags"]["lengthChecked"]), b(d["flags"]["valueStrFresh"]), b(d["flags"]["valueTypeLate"]),
-            ", ".join('"%s"' % n for n in d["varTypeNames"]), b(d["flags"]["dictLoadAdds"]), b(d["flags"]["arrayRefiled"]),
+            ", ".join('"%s"' % n for n in d["varTypeNames"]), b(d["flags"]["dictLoadAdds"]), b(d["flags"]["arraySizeChecked"]), b(d["flags"]["arrayRefiled"]),
             ", ".join('("%s", "%s")' % t for t in d["brackets"]["bracketInto"]),
             ", ".join('("%s", "%s")' % t for t in d["brackets"]["bracketPoly"])))
 
@@ -881,8 +893,10 @@ def gen_case(rng, nitems, nobj=None, maxstr=300, dangling=0.04, values=0.2, mode
             r = rng.random()
             if r < 0.2:
                 body.append((rng.choice(["op", "sp"]), l))           # self reference
-            elif r < 0.35 and pending and depth < 4:
-                body.append(obj(pending.pop(), depth + 1))            # nested ArchiveObject
+            elif r < 0.35 and pending and depth < 4 and (poly_scripted or cls[pending[-1]] != b"Listener"):
+                # nested ArchiveObject (C11: not of a real Listener - the flag byte of Listener::Archive is followed by
+                # the model for top-level records only, the record reader below the value reader cannot call it)
+                body.append(obj(pending.pop(), depth + 1))
             else:
                 body.append(plain_item())
         return (kind, l, cls[l], body)
